@@ -72,7 +72,7 @@ func (sc *Scn) Rebegin(extra ...PoolRef) {
 	sc.std.Pools = append(sc.std.Pools, extra...)
 	pools := []J{}
 	for _, p := range sc.std.Pools {
-		pools = append(pools, J{"id": p.Id, "addr": p.Addr, "oracle": p.Oracle, "perp": p.Perp, "denoms": p.Denoms, "shareDenom": p.ShareDen, "treasury": p.Treasury})
+		pools = append(pools, J{"id": p.Id, "addr": p.Addr, "oracle": p.Oracle, "perp": p.Perp, "denoms": p.Denoms, "weights": p.Weights, "shareDenom": p.ShareDen, "treasury": p.Treasury})
 	}
 	sc.id += 1000
 	sc.out.Line(J{"t": "hist.begin", "id": sc.id, "seed": 0, "scenario": "rebegin", "names": sc.w.Names, "pools": pools, "obs": sc.w.Observe()})
@@ -118,7 +118,7 @@ func runScn(t *testing.T, seed int64, n int, out *Out) {
 		}
 		pools := []J{}
 		for _, p := range std.Pools {
-			pools = append(pools, J{"id": p.Id, "addr": p.Addr, "oracle": p.Oracle, "perp": p.Perp, "denoms": p.Denoms, "shareDenom": p.ShareDen, "treasury": p.Treasury})
+			pools = append(pools, J{"id": p.Id, "addr": p.Addr, "oracle": p.Oracle, "perp": p.Perp, "denoms": p.Denoms, "weights": p.Weights, "shareDenom": p.ShareDen, "treasury": p.Treasury})
 		}
 		out.Line(J{"t": "hist.begin", "id": id, "seed": seed, "scenario": name, "names": w.Names, "pools": pools, "obs": w.Observe()})
 		sc := &Scn{t: t, w: w, std: std, out: out, id: id, stats: map[string]int{}, ok: true}
